@@ -97,6 +97,43 @@ func c13Streams(c *ev.Ctx) []tstream {
 			}
 		}
 	}
+	// uncompressed chunks that end exactly where the decoded output reaches a multiple of the
+	// ring size of the reader's dictionary (DictCap+1), written with Flush so that the chunk
+	// borders are where they are wanted, followed by compressed data
+	for _, dict := range []int{4096, 8192} {
+		for vi, cuts := range [][]int{{2000, dict + 1 - 2000}, {dict + 1}, {1, dict}, {dict, 1}, {dict + 1, dict + 1}, {3000, 2*(dict+1) - 3000}} {
+			var b2 bytes.Buffer
+			w2, err := (lzma.Writer2Config{DictCap: dict, BufSize: 4096}).NewWriter2(&b2)
+			if err != nil {
+				continue
+			}
+			var content []byte
+			for _, n := range cuts {
+				for n > 0 {
+					k := n
+					if k > 60000 {
+						k = 60000
+					}
+					d := gen.Data(r, "random", k)
+					w2.Write(d)
+					w2.Flush()
+					content = append(content, d...)
+					n -= k
+				}
+			}
+			t := gen.Data(r, "text", 3000)
+			w2.Write(t)
+			content = append(content, t...)
+			w2.Close()
+			streams = append(streams, tstream{ID: fmt.Sprintf("ringend2-%d-%d", dict, vi), Format: "lzma2", B: b2.Bytes(), Content: content, Dict: dict})
+			if vi%2 == 0 {
+				xzs := ref.BuildXZ(ref.CheckCRC32, []ref.BlockSpec{{LZMA2: b2.Bytes(), Content: content, DictCode: byte(map[int]int{4096: 0, 8192: 2}[dict])}})
+				if o, _, err := ref.DecodeXZ(xzs, 0); err == nil && bytes.Equal(o, content) {
+					streams = append(streams, tstream{ID: fmt.Sprintf("ringendxz-%d-%d", dict, vi), Format: "xz", B: xzs, Content: content})
+				}
+			}
+		}
+	}
 	return streams
 }
 
